@@ -39,9 +39,47 @@ def check(run, prog, tier):
     rule_B(run, prog)
     rule_C(run, prog)
     rule_D(run, prog)
+    run.rule("C11-F", "the frequency axis is shifted by the rotating-frame frequency of the propagated signal "
+                      "(excited-block minus ground-block RWA energy)", minimum=1)
     run.rule("C11-E", "the Hamiltonian and dipole operators handed to the calculator do not share storage with "
                       "arrays the aggregate rewrites in place", minimum=2)
     rule_E(run, prog)
+    rule_F(run, prog)
+
+
+def rule_F(run, prog):
+    """With a rotating-wave Hamiltonian the optical coherences are propagated in a frame rotating at
+    HR[excited block] - HR[ground block].  bootstrap() shifts the returned frequency axis by self.rwa;
+    lines computed from propagated dynamics sit at their transition energies only if self.rwa is that
+    same difference (the ground block's RWA energy is zero only when its average energy is)."""
+    import copy
+    rid = "C11-F"
+    f = prog.func("quantarhei.spectroscopy.abscalculator.AbsSpectrumCalculator.bootstrap")
+    branch = [n for n in ast.walk(f.node) if isinstance(n, ast.If) and norm(n.test).endswith(".has_rwa")]
+    if len(branch) != 1:
+        raise AnalysisError("bootstrap: branch on has_rwa not found")
+    body = branch[0].body
+    hname = norm(branch[0].test)[:-len(".has_rwa")]
+    binds = {}
+    for s_ in body:
+        if isinstance(s_, ast.Assign) and isinstance(s_.targets[0], ast.Name):
+            binds.setdefault(s_.targets[0].id, []).append(s_.value)
+    asg = [s_ for s_ in body if isinstance(s_, ast.Assign) and norm(s_.targets[0]) == "self.rwa"]
+    if len(asg) != 1:
+        raise AnalysisError("bootstrap: assignment of self.rwa under has_rwa not found")
+
+    class Inline(ast.NodeTransformer):
+        def visit_Name(self, node):
+            if node.id in binds and len(binds[node.id]) == 1:
+                return self.visit(copy.deepcopy(binds[node.id][0]))
+            return node
+    val = norm(Inline().visit(copy.deepcopy(asg[0].value)))
+    sk = "%s.get_RWA_skeleton()" % hname
+    want = "self.convert_2_internal_u(%s[%s.rwa_indices[1]] - %s[%s.rwa_indices[0]])" % (sk, hname, sk, hname)
+    run.obligation(rid, "AbsSpectrumCalculator.bootstrap", val == want, key="frame-frequency",
+                   message="under has_rwa the axis shift is %s; it must be the difference of the RWA skeleton energies of "
+                           "the excited and the ground block: %s" % (val, want), loc=f.loc(asg[0]),
+                   sample={"value": val})
 
 
 def rule_E(run, prog):
